@@ -70,10 +70,16 @@ fn gen(seed: u64, idx: u64) -> Spec {
         ver_cap: *rng.pick(&[Some(true), Some(true), Some(true), Some(false), None]),
         rp: *rng.pick(&["example.com", "example.org"]),
         n_seeded: if store == StoreKind::Single { 1 } else { rng.range(0, 3) },
-        list: match rng.below(4) {
+        list: match rng.below(6) {
             0 => None,
             1 => Some(vec![]),
             2 => Some(vec![0]),
+            3 => {
+                // a request well above 1 KiB: dozens of unknown 32-byte ids, then a held one
+                let mut v = vec![usize::MAX; rng.range(20, 45)];
+                v.push(rng.below(3));
+                Some(v)
+            }
             _ => Some(vec![usize::MAX, rng.below(3)]),
         },
         algs: match rng.below(5) {
@@ -133,15 +139,32 @@ fn store_digest(snaps: &[CredSnap], known_ids: &[Vec<u8>]) -> Vec<String> {
         .collect()
 }
 
-fn run_route<S>(s: &Spec, store: S, via_trait: bool, snapshot: &dyn Fn(&Authenticator<S, RecUv>) -> Vec<CredSnap>, uv: RecUv, ids: &[Vec<u8>]) -> Digest
+/// Run the whole sequence on one authenticator: the first step is `base`, the following ones reuse its
+/// store / configuration; `flips[j]` changes the store capability before step j (reference store only).
+#[allow(clippy::too_many_arguments)]
+fn run_route<S>(base: &Spec, more: &[Spec], flips: &[Option<Disc>], store: S, via_trait: bool, snapshot: &dyn Fn(&Authenticator<S, RecUv>) -> Vec<CredSnap>, uv: RecUv, ids: &[Vec<u8>], set_disc: &dyn Fn(&mut Authenticator<S, RecUv>, Disc)) -> Vec<Digest>
 where
     S: CredentialStore<PasskeyItem = Passkey> + Sync + Send,
 {
-    let mut auth = mk_auth(store, uv, s.cfg);
+    let mut auth = mk_auth(store, uv, base.cfg);
+    let mut out = Vec::new();
+    for (j, s) in std::iter::once(base).chain(more.iter()).enumerate() {
+        if let Some(Some(d)) = flips.get(j) {
+            set_disc(&mut auth, *d);
+        }
+        out.push(run_step(s, &mut auth, via_trait, snapshot, ids));
+    }
+    out
+}
+
+fn run_step<S>(s: &Spec, auth: &mut Authenticator<S, RecUv>, via_trait: bool, snapshot: &dyn Fn(&Authenticator<S, RecUv>) -> Vec<CredSnap>, ids: &[Vec<u8>]) -> Digest
+where
+    S: CredentialStore<PasskeyItem = Passkey> + Sync + Send,
+{
     let mut fields: Vec<(String, String)> = Vec::new();
     let status = match s.op {
         OpKind::Info => {
-            let r = if via_trait { block_on(Ctap2Api::get_info(&auth)) } else { block_on(auth.get_info()) };
+            let r = if via_trait { block_on(Ctap2Api::get_info(&*auth)) } else { block_on(auth.get_info()) };
             let mut b = Vec::new();
             ciborium::ser::into_writer(&r, &mut b).unwrap();
             fields.push(("info".into(), hex_short(&b)));
@@ -149,7 +172,7 @@ where
             Ok(())
         }
         OpKind::Make => {
-            let exclude = s.list.as_ref().map(|l| l.iter().map(|i| descriptor(ids.get(*i).map(|v| v.as_slice()).unwrap_or(&[0xEE; 16]))).collect());
+            let exclude = s.list.as_ref().map(|l| l.iter().map(|i| descriptor(ids.get(*i).map(|v| v.as_slice()).unwrap_or(&[0xEE; 32]))).collect());
             let ext = s.prf.then(|| ctap2::make_credential::ExtensionInputs {
                 hmac_secret: None,
                 hmac_secret_mc: None,
@@ -160,7 +183,7 @@ where
             if s.pin_auth {
                 req.pin_auth = Some(vec![1, 2].into());
             }
-            let r = if via_trait { block_on(Ctap2Api::make_credential(&mut auth, req)) } else { block_on(auth.make_credential(req)) };
+            let r = if via_trait { block_on(Ctap2Api::make_credential(&mut *auth, req)) } else { block_on(auth.make_credential(req)) };
             match r {
                 Ok(resp) => {
                     let ad = authdata::decode(&resp.auth_data.to_vec());
@@ -180,7 +203,7 @@ where
             }
         }
         OpKind::Get => {
-            let allow = s.list.as_ref().map(|l| l.iter().map(|i| descriptor(ids.get(*i).map(|v| v.as_slice()).unwrap_or(&[0xEE; 16]))).collect());
+            let allow = s.list.as_ref().map(|l| l.iter().map(|i| descriptor(ids.get(*i).map(|v| v.as_slice()).unwrap_or(&[0xEE; 32]))).collect());
             let ext = s.prf.then(|| ctap2::get_assertion::ExtensionInputs {
                 hmac_secret: None,
                 prf: Some(ctap2::extensions::AuthenticatorPrfInputs { eval: Some(ctap2::extensions::AuthenticatorPrfValues { first: [4; 32], second: Some([5; 32]) }), eval_by_credential: None }),
@@ -189,31 +212,57 @@ where
             if s.pin_auth {
                 req.pin_auth = Some(vec![1, 2].into());
             }
-            let r = if via_trait { block_on(Ctap2Api::get_assertion(&mut auth, req)) } else { block_on(auth.get_assertion(req)) };
+            let r = if via_trait { block_on(Ctap2Api::get_assertion(&mut *auth, req)) } else { block_on(auth.get_assertion(req)) };
             match r {
                 Ok(resp) => {
                     let bytes = resp.auth_data.to_vec();
                     fields.push(("authData".into(), hex_short(&bytes)));
-                    fields.push(("credential".into(), resp.credential.as_ref().map(|c| hex_short(&c.id)).unwrap_or_default()));
+                    // a credential created earlier in this sequence has a fresh random id and key on each
+                    // route: it is compared modulo both (and so is its signature)
+                    let fresh = resp.credential.as_ref().map_or(false, |c| !ids.iter().any(|i| i.as_slice() == c.id.as_slice()));
+                    fields.push(("credential".into(), if fresh { "created-in-this-sequence".to_string() } else { resp.credential.as_ref().map(|c| hex_short(&c.id)).unwrap_or_default() }));
                     fields.push(("user".into(), resp.user.as_ref().map(|u| hex_short(&u.id)).unwrap_or_default()));
                     // RFC 6979: deterministic signature for the same key and message
-                    fields.push(("signature".into(), hex_short(&resp.signature)));
-                    fields.push(("unsigned".into(), format!("{:?}", resp.unsigned_extension_outputs)));
+                    fields.push(("signature".into(), if fresh { "signed with a fresh key".to_string() } else { hex_short(&resp.signature) }));
+                    // PRF outputs of a fresh credential are keyed with fresh random secrets: presence only
+                    fields.push(("unsigned".into(), if fresh { format!("prf results present: {:?}", resp.unsigned_extension_outputs.as_ref().map(|u| u.prf.as_ref().map(|p| p.results.second.is_some()))) } else { format!("{:?}", resp.unsigned_extension_outputs) }));
                     Ok(())
                 }
                 Err(e) => Err(status_byte_ref(&e)),
             }
         }
     };
-    Digest { status, fields, store: store_digest(&snapshot(&auth), ids) }
+    Digest { status, fields, store: store_digest(&snapshot(auth), ids) }
+}
+
+/// the follow-up steps of a sequence: same store / configuration as the base step, other requests
+fn gen_more(seed: u64, idx: u64, base: &Spec) -> (Vec<Spec>, Vec<Option<Disc>>) {
+    let mut rng = Rng::derive(seed, "c18seq", idx);
+    let n = if idx % 3 == 0 { rng.range(1, 3) } else { 0 };
+    let mut more = Vec::new();
+    let mut flips: Vec<Option<Disc>> = vec![None];
+    for j in 0..n {
+        let mut s = gen(seed, idx * 16 + 1 + j as u64);
+        s.op = *rng.pick(&[OpKind::Info, OpKind::Info, OpKind::Make, OpKind::Get]);
+        s.store = base.store;
+        s.cfg = base.cfg;
+        s.disc = base.disc;
+        s.n_seeded = base.n_seeded;
+        s.uv_outcome = base.uv_outcome;
+        s.ver_cap = base.ver_cap;
+        more.push(s);
+        flips.push(if base.store == StoreKind::Rec && rng.bool() { Some(*rng.pick(&[Disc::Full, Disc::Forced, Disc::OnlyNonDiscoverable])) } else { None });
+    }
+    (more, flips)
 }
 
 pub fn iso_case(args: &Args, idx: u64) -> CaseOut {
     let s = gen(args.seed, idx);
+    let (more, flips) = gen_more(args.seed, idx, &s);
     let creds = seeded(&s, idx);
     let ids: Vec<Vec<u8>> = creds.iter().map(|c| c.credential_id.to_vec()).collect();
     let mut out = CaseOut { class: format!("{:?}", s.op), ..Default::default() };
-    let mut routes: Vec<Digest> = Vec::new();
+    let mut routes: Vec<Vec<Digest>> = Vec::new();
     for via_trait in [false, true] {
         let rig = Rig::new(s.disc, s.uv_outcome, s.ver_cap);
         let d = match s.store {
@@ -222,43 +271,52 @@ pub fn iso_case(args: &Args, idx: u64) -> CaseOut {
                     rig.store.insert_raw(c.clone());
                 }
                 let h = rig.store.clone();
-                run_route(&s, rig.store.clone(), via_trait, &move |_| h.snapshot(), rig.uv.clone(), &ids)
+                run_route(&s, &more, &flips, rig.store.clone(), via_trait, &move |_| h.snapshot(), rig.uv.clone(), &ids, &|a, d| a.store_mut().disc = d)
             }
             StoreKind::Memory => {
                 let mut m = MemoryStore::new();
                 for c in &creds {
                     m.insert(c.credential_id.to_vec(), c.clone());
                 }
-                run_route(&s, m, via_trait, &|a| {
+                run_route(&s, &more, &flips, m, via_trait, &|a| {
                     let mut v: Vec<CredSnap> = a.store().values().map(snap_passkey).collect();
                     v.sort_by(|x, y| x.id.cmp(&y.id));
                     v
-                }, rig.uv.clone(), &ids)
+                }, rig.uv.clone(), &ids, &|_, _| {})
             }
-            StoreKind::Single => run_route(&s, creds.first().cloned(), via_trait, &|a| a.store().iter().map(snap_passkey).collect(), rig.uv.clone(), &ids),
+            StoreKind::Single => run_route(&s, &more, &flips, creds.first().cloned(), via_trait, &|a| a.store().iter().map(snap_passkey).collect(), rig.uv.clone(), &ids, &|_, _| {}),
         };
         routes.push(d);
     }
-    let case = json!({"index": idx, "spec": spec_json(&s)});
-    let (direct, routed) = (&routes[0], &routes[1]);
+    let case = json!({"index": idx, "spec": spec_json(&s), "following_steps": more.iter().map(spec_json).collect::<Vec<_>>(), "capability_flips": flips.iter().map(|f| f.map(|d| format!("{d:?}"))).collect::<Vec<_>>()});
+    let all: Vec<&Spec> = std::iter::once(&s).chain(more.iter()).collect();
+    for (j, sp) in all.iter().enumerate() {
+        let (direct, routed) = (&routes[0][j], &routes[1][j]);
+        let opname = match sp.op { OpKind::Info => "get_info", OpKind::Make => "make_credential", OpKind::Get => "get_assertion" };
+        let at = if j == 0 { String::new() } else { format!(" (step {} of a sequence on the same authenticator)", j + 1) };
+        if direct.status != routed.status {
+            out.violations.push((format!("Ctap2Api::{opname}: result status differs from the direct method{at}"), format!("direct {:?}, trait {:?}", direct.status, routed.status), case.clone()));
+        } else if direct.fields != routed.fields {
+            let diff: Vec<String> = direct.fields.iter().zip(&routed.fields).filter(|(a, b)| a != b).map(|(a, b)| format!("{}: direct {} / trait {}", a.0, a.1, b.1)).collect();
+            out.violations.push((format!("Ctap2Api::{opname}: result differs from the direct method{at}"), diff.join("; "), case.clone()));
+        }
+        // new-credential records are compared modulo id and key; sort to be independent of map order
+        let mut a = direct.store.clone();
+        let mut b = routed.store.clone();
+        a.sort();
+        b.sort();
+        if a != b {
+            out.violations.push((format!("Ctap2Api::{opname}: effect on the store differs from the direct method{at}"), format!("direct {a:?} / trait {b:?}"), case.clone()));
+        }
+        out.counters.push((format!("compared:{opname}:{}", if direct.status.is_ok() { "ok" } else { "err" }), 1));
+    }
+    if !more.is_empty() {
+        out.counters.push(("sequences_compared".into(), 1));
+    }
+    let direct = &routes[0][0];
+    out.key = Some(fnv_str(&format!("{:?}|{:?}|{:?}|{:?}|{}|{}|{}|{:?}|{:?}|{}|{:?}", s.op, s.store, s.uv_outcome, s.list.as_ref().map(|l| l.len().min(5)), s.rk, s.uv, s.prf, direct.status, s.cfg.hmac, more.len(), flips)));
     let opname = match s.op { OpKind::Info => "get_info", OpKind::Make => "make_credential", OpKind::Get => "get_assertion" };
-    if direct.status != routed.status {
-        out.violations.push((format!("Ctap2Api::{opname}: result status differs from the direct method"), format!("direct {:?}, trait {:?}", direct.status, routed.status), case.clone()));
-    } else if direct.fields != routed.fields {
-        let diff: Vec<String> = direct.fields.iter().zip(&routed.fields).filter(|(a, b)| a != b).map(|(a, b)| format!("{}: direct {} / trait {}", a.0, a.1, b.1)).collect();
-        out.violations.push((format!("Ctap2Api::{opname}: result differs from the direct method"), diff.join("; "), case.clone()));
-    }
-    // new-credential records are compared modulo id and key; sort to be independent of map order
-    let mut a = direct.store.clone();
-    let mut b = routed.store.clone();
-    a.sort();
-    b.sort();
-    if a != b {
-        out.violations.push((format!("Ctap2Api::{opname}: effect on the store differs from the direct method"), format!("direct {a:?} / trait {b:?}"), case.clone()));
-    }
-    out.counters.push((format!("compared:{opname}:{}", if direct.status.is_ok() { "ok" } else { "err" }), 1));
-    out.key = Some(fnv_str(&format!("{:?}|{:?}|{:?}|{:?}|{}|{}|{}|{:?}|{:?}", s.op, s.store, s.uv_outcome, s.list, s.rk, s.uv, s.prf, direct.status, s.cfg.hmac)));
-    out.sample = Some((format!("{opname}/{:?}", s.store), json!({"spec": spec_json(&s), "direct_status": format!("{:?}", direct.status)})));
+    out.sample = Some((format!("{opname}/{:?}/seq{}", s.store, more.len()), json!({"spec": spec_json(&s), "following_steps": more.len(), "direct_status": format!("{:?}", direct.status)})));
     out
 }
 
